@@ -428,6 +428,7 @@ pub fn proc_main(mode: &str, arg: &str) -> i32 {
     let mut txt = String::new();
     std::io::Read::read_to_string(&mut std::io::stdin(), &mut txt).expect("stdin");
     let spec: Spec = serde_json::from_str(&txt).expect("spec");
+    crate::gens::set_call_generic(spec.generic);
     if mode == "alone" {
         let i: usize = arg.parse().expect("index");
         println!("{}", fmt_results(&[run_alone(&spec, i)]));
